@@ -27,4 +27,5 @@ INVARIANT KeepsKnown
 INVARIANT Faithful
 INVARIANT Associative
 INVARIANT TripleIntersection
+INVARIANT PairwiseCompatible
 CHECK_DEADLOCK FALSE
